@@ -415,6 +415,24 @@ def do_case(spec):
                    p_perm=(0.5 if sd % 3 == 0 else 0.0))
     g.doc()
     gsegs = arrange(list(g.segs), copies)
+    # now and then: a second functional group of ANOTHER transaction type with the same GS08 (270/271, 276/277, …) in the
+    # same interchange - the map has to be re-selected on GS01 as well
+    partners = [e for e in gendoc.index_entries() if e['icvn'] == m['icvn'] and e['vriic'] == m['vriic'] and e['fic'] != m['fic']]
+    if partners and sd % 4 == 1:
+        e = partners[sd % len(partners)]
+        g2 = gendoc.Gen(e['map_file'], e['icvn'], e['vriic'], e['fic'], seed=sd + 1, p_opt=p_opt, max_rep=max_rep, tspc=e.get('tspc'))
+        g2.doc()
+        ids2 = [sg.get_seg_id() for sg, _ in g2.segs]
+        grp = g2.segs[ids2.index('GS'):ids2.index('GE') + 1]
+        ids1 = [sg.get_seg_id() for sg, _ in gsegs]
+        ngs = ids1.count('GS')
+        grp[0][0].set('GS06', str(ngs + 1))
+        grp[-1][0].set('GE02', str(ngs + 1))
+        k = len(ids1) - 1 - ids1[::-1].index('GE')
+        gsegs = gsegs[:k + 1] + list(grp) + gsegs[k + 1:]
+        for sg, _ in gsegs:
+            if sg.get_seg_id() == 'IEA':
+                sg.set('IEA01', str(ngs + 1))
     text = ''.join(sg.format('~', '*', ':') + '\n' for sg, _ in gsegs)
     out = {'spec': spec, 'text': text, 'nseg': len(gsegs), 'cases': []}
     rview = reader_view(text)
